@@ -114,6 +114,35 @@ def evaluate(call, keep=None):
                 except Exception as e:  # noqa
                     obs.append(['exc', type(e).__name__])
             return ['ok', obs]
+        if kind == 'construct_len':
+            # n zero bits: cls(length=n) or cls(n)
+            _, cname, n, how = call
+            o = getattr(bs, cname)(length=n) if how == 'kw' else getattr(bs, cname)(n)
+            if keep is not None:
+                keep.append(o)
+            return ['ok', o.bin, len(o)]
+        if kind == 'shift':
+            # a shift (or another operator that builds its result from a fresh constant) on a fresh object
+            _, cname, bits, op, n = call
+            x = getattr(bs, cname)(bin=bits)
+            r = {'>>': lambda: x >> n, '<<': lambda: x << n, '~': lambda: ~x, '*': lambda: x * n, '^': lambda: x ^ x, '&z': lambda: x & getattr(bs, cname)(length=len(x))}[op]()
+            if keep is not None:
+                keep.append(r)
+            return ['ok', r.bin, x.bin]
+        if kind == 'array_eq':
+            # an Array compared with an equal one made earlier in the history (if there is one), and with a fresh one
+            _, dt, vals = call
+            new = bs.Array(dt, vals)
+            old = None
+            okey = json.dumps(current_options(), sort_keys=True)      # only Arrays made under the same option values are comparable
+            if keep is not None:
+                for k in reversed(keep):
+                    if isinstance(k, tuple) and k[0] == 'arr' and k[1] == (dt, json.dumps(vals), okey):
+                        old = k[2]
+                        break
+                keep.append(('arr', (dt, json.dumps(vals), okey), new))
+            other = old if old is not None else bs.Array(dt, vals)
+            return ['ok', new.equals(other), other.equals(new), new.data.bin, str(new.dtype) == str(other.dtype), new.dtype == other.dtype]
         if kind == 'construct_kw':
             # keyword construction / pack / Dtype.build with values that are equal as cache keys but not the same (0.0, -0.0, 0, False; 1, 1.0, True)
             _, cname, name, length, vj, how = call
@@ -407,6 +436,34 @@ EQUAL_KEYS = [[['f', (0.0).hex()], ['f', (-0.0).hex()], ['i', 0], ['b', False]],
 
 
 @st.composite
+def zero_shift_call_st(draw):
+    k = draw(st.integers(0, 2))
+    n = draw(st.sampled_from([1, 2, 3, 5, 8, 9, 16]))
+    if k == 0:
+        return ['construct_len', draw(st.sampled_from(CLASSES)), n, draw(st.sampled_from(['kw', 'pos']))]
+    if k == 1:
+        bits = draw(bits_st(max_len=24, min_len=4))
+        return ['shift', draw(st.sampled_from(CLASSES)), bits, draw(st.sampled_from(['>>', '>>', '<<', '~', '*', '^', '&z'])), min(n, len(bits) - 1)]
+    dt = draw(st.sampled_from(['uint8', 'int4', 'float16', 'uint12', 'e4m3mxfp', '<h']))
+    return ['array_eq', dt, draw(st.sampled_from([[1, 2], [0], [3, 1, 2]]))]
+
+
+@st.composite
+def zero_shift_st(draw, tier):
+    """zero-filled constructions, operators that build their result from a fresh constant, and Array comparisons, with cache floods in between"""
+    steps = []
+    for _ in range(draw(st.integers(3, 10))):
+        steps.append(['call', draw(zero_shift_call_st())])
+        if draw(st.integers(0, 3)) == 0:
+            steps.append(['mutate', 0, draw(st.sampled_from(['invert', 'append', 'set0']))])
+        if draw(st.integers(0, 5)) == 0:
+            steps.append(['fill', draw(st.integers(0, 1000)), 300])
+        if draw(st.integers(0, 2)) == 0:
+            steps.append(['repeat', draw(st.integers(0, 1000))])
+    return {'steps': steps}
+
+
+@st.composite
 def kw_value_call_st(draw):
     group = draw(st.sampled_from(EQUAL_KEYS))
     name, length = draw(st.sampled_from([('float', 16), ('float', 32), ('float', 64), ('floatle', 32), ('bfloat', None), ('int', 8), ('uint', 8), ('e4m3mxfp', None), ('p4binary', None),
@@ -460,6 +517,8 @@ def call_st(draw):
         token = draw(st.sampled_from(['uint8', 'float16', 'int12', 'e4m3mxfp', 'uint', 'u8', 'mxint', 'hex']))
         length = 8 if token in ('uint', 'hex') else None
         return ['dtype_of_dtype', token, length, draw(st.sampled_from([None, None, 2, 0.5])), draw(st.sampled_from([None, 2, 4, 0.5, 1]))]
+    if k == 13 and draw(st.integers(0, 2)) == 0:
+        return draw(zero_shift_call_st())
     if k == 13 and draw(st.booleans()):
         return draw(kw_value_call_st())
     if k == 13:
@@ -692,7 +751,7 @@ def run(case):
             if key not in seen and first in first_items:
                 nt = True      # a format sharing its first item (cache key of the parser) with an earlier, different call
             first_items.add(first)
-        if call[0] in ('dtype_of_dtype', 'construct_kw'):
+        if call[0] in ('dtype_of_dtype', 'construct_kw', 'construct_len', 'shift', 'array_eq'):
             nt = nt or len(history) > 0
         if key not in seen:
             distinct_keys += 1
@@ -709,6 +768,7 @@ SUBCHECKS = [
     Sub('C09.literal_sharing', run, strategy=literal_sharing_st, examples={'quick': 1500, 'thorough': 20000}),
     Sub('C09.format_cache', run, strategy=format_focus_st, examples={'quick': 1500, 'thorough': 20000}),
     Sub('C09.equal_but_different_values', run, strategy=equal_keys_st, examples={'quick': 1500, 'thorough': 20000}),
+    Sub('C09.constants_and_array_equality', run, strategy=zero_shift_st, examples={'quick': 1200, 'thorough': 15000}),
     Sub('C09.dtype_cache', run, strategy=dtype_focus_st, examples={'quick': 800, 'thorough': 10000}),
     Sub('C09.history', run, strategy=history_st, examples={'quick': 500, 'thorough': 6000}),
 ]
